@@ -255,7 +255,25 @@ func (e *c03Eng) resolve(fr *c03Frame, v ssa.Value) (ssa.Value, *c03Frame) {
 						v = nv
 						continue
 					}
+				} else if _, isFA := x.X.(*ssa.FieldAddr); isFA {
+					if nv := e.cellVal(x); nv != nil {
+						v = nv
+						continue
+					}
 				}
+			}
+			if fa, ok := x.X.(*ssa.FieldAddr); ok {
+				if nv, nfr, ok := e.fieldOfLocal(fr, fa.X, fa.Field, x, true); ok {
+					v, fr = nv, nfr
+					continue
+				}
+			}
+			return v, fr
+		case *ssa.Field:
+			// a field of a struct value built locally (a parameter object, possibly handed on by value)
+			if nv, nfr, ok := e.fieldOfLocal(fr, x.X, x.Field, x, false); ok {
+				v, fr = nv, nfr
+				continue
 			}
 			return v, fr
 		default:
@@ -263,6 +281,178 @@ func (e *c03Eng) resolve(fr *c03Frame, v ssa.Value) (ssa.Value, *c03Frame) {
 		}
 	}
 	return v, fr
+}
+
+// c03FieldStores lists the stores into field `field` of the local struct al. ok=false if the struct (or
+// that field) may be written or reached in any other way (address taken, whole-value assignment,
+// captured by a function literal, pointer handed to a call).
+func c03FieldStores(al *ssa.Alloc, field int) (stores []*ssa.Store, ok bool) {
+	if al.Referrers() == nil {
+		return nil, false
+	}
+	if _, isStruct := al.Type().Underlying().(*types.Pointer).Elem().Underlying().(*types.Struct); !isStruct {
+		return nil, false
+	}
+	for _, ref := range *al.Referrers() {
+		switch x := ref.(type) {
+		case *ssa.DebugRef:
+		case *ssa.UnOp:
+			if x.Op != token.MUL {
+				return nil, false
+			}
+		case *ssa.FieldAddr:
+			if x.X != ssa.Value(al) {
+				return nil, false
+			}
+			if x.Field != field {
+				continue
+			}
+			if x.Referrers() == nil {
+				return nil, false
+			}
+			for _, r2 := range *x.Referrers() {
+				switch y := r2.(type) {
+				case *ssa.DebugRef:
+				case *ssa.UnOp:
+					if y.Op != token.MUL {
+						return nil, false
+					}
+				case *ssa.Store:
+					if y.Addr != ssa.Value(x) {
+						return nil, false
+					}
+					stores = append(stores, y)
+				case *ssa.FieldAddr, *ssa.IndexAddr:
+					if !c03ReadOnlyAddr(y.(ssa.Value), 0) {
+						return nil, false
+					}
+				default:
+					return nil, false
+				}
+			}
+		default:
+			return nil, false
+		}
+	}
+	return stores, true
+}
+
+// c03ReadOnlyAddr: the address (of a field or element) is only loaded from, possibly through further
+// field/element addresses.
+func c03ReadOnlyAddr(addr ssa.Value, d int) bool {
+	rs := addr.Referrers()
+	if rs == nil || d > 4 {
+		return false
+	}
+	for _, r2 := range *rs {
+		switch y := r2.(type) {
+		case *ssa.DebugRef:
+		case *ssa.UnOp:
+			if y.Op != token.MUL {
+				return false
+			}
+		case *ssa.FieldAddr:
+			if !c03ReadOnlyAddr(y, d+1) {
+				return false
+			}
+		case *ssa.IndexAddr:
+			if y.X != addr || !c03ReadOnlyAddr(y, d+1) {
+				return false
+			}
+		default:
+			return false // a store through the address, or the address is handed on
+		}
+	}
+	return true
+}
+
+// c03PartlyWritten: the local is written through field or element addresses (its direct stores do not
+// tell what it holds).
+func c03PartlyWritten(al *ssa.Alloc) bool {
+	if al.Referrers() == nil {
+		return false
+	}
+	for _, ref := range *al.Referrers() {
+		switch ref.(type) {
+		case *ssa.FieldAddr, *ssa.IndexAddr:
+			if !c03ReadOnlyAddr(ref.(ssa.Value), 0) {
+				return true
+			}
+		}
+	}
+	return false
+}
+
+// c03WholeStore: the local struct is assigned as a whole exactly once and otherwise only read (directly
+// or through field addresses): the value it holds.
+func c03WholeStore(al *ssa.Alloc) *ssa.Store {
+	if al.Referrers() == nil || c03PartlyWritten(al) {
+		return nil
+	}
+	var st *ssa.Store
+	for _, ref := range *al.Referrers() {
+		switch x := ref.(type) {
+		case *ssa.DebugRef, *ssa.FieldAddr, *ssa.IndexAddr:
+		case *ssa.UnOp:
+			if x.Op != token.MUL {
+				return nil
+			}
+		case *ssa.Store:
+			if x.Addr != ssa.Value(al) || st != nil {
+				return nil
+			}
+			st = x
+		default:
+			return nil
+		}
+	}
+	return st
+}
+
+// fieldOfLocal resolves field `field` of the struct value `base` (a struct value, or with viaAddr the
+// address of one) when base denotes a struct built in a local of some activation of the chain and the
+// field is assigned exactly once, before the struct is read (a parameter object, a value receiver).
+func (e *c03Eng) fieldOfLocal(fr *c03Frame, base ssa.Value, field int, at ssa.Instruction, viaAddr bool) (ssa.Value, *c03Frame, bool) {
+	if viaAddr {
+		al, ok := base.(*ssa.Alloc)
+		if !ok {
+			return nil, nil, false
+		}
+		return e.fieldOfAlloc(fr, al, field, at, 0)
+	}
+	return e.fieldOfValue(fr, base, field, 0)
+}
+
+func (e *c03Eng) fieldOfValue(fr *c03Frame, val ssa.Value, field int, d int) (ssa.Value, *c03Frame, bool) {
+	if d > 6 {
+		return nil, nil, false
+	}
+	bv, bfr := e.resolveParams(fr, val)
+	ld, ok := an.Unwrap(bv).(*ssa.UnOp)
+	if !ok || ld.Op != token.MUL {
+		return nil, nil, false
+	}
+	al, ok := ld.X.(*ssa.Alloc)
+	if !ok {
+		return nil, nil, false
+	}
+	return e.fieldOfAlloc(bfr, al, field, ld, d+1)
+}
+
+func (e *c03Eng) fieldOfAlloc(fr *c03Frame, al *ssa.Alloc, field int, read ssa.Instruction, d int) (ssa.Value, *c03Frame, bool) {
+	if _, isStruct := al.Type().Underlying().(*types.Pointer).Elem().Underlying().(*types.Struct); !isStruct {
+		return nil, nil, false
+	}
+	if sts, ok := c03FieldStores(al, field); ok {
+		if len(sts) == 1 && an.Dominates(sts[0], read) {
+			return sts[0].Val, fr, true
+		}
+		return nil, nil, false
+	}
+	if st := c03WholeStore(al); st != nil && an.Dominates(st, read) {
+		return e.fieldOfValue(fr, st.Val, field, d+1)
+	}
+	return nil, nil, false
 }
 
 // resolveParams follows parameters to the arguments of the call chain (and conversions), nothing else.
@@ -368,7 +558,7 @@ func (e *c03Eng) termD(fr *c03Frame, v ssa.Value, d int) string {
 		}
 	case *ssa.Alloc:
 		// the address of a local: spelled by what it holds (`&v` with v := msg.Value())
-		if sts, local := c03LocalStores(x); local {
+		if sts, local := c03LocalStores(x); local && !c03PartlyWritten(x) {
 			switch len(sts) {
 			case 0:
 				return "&zero"
@@ -389,7 +579,7 @@ func (e *c03Eng) termD(fr *c03Frame, v ssa.Value, d int) string {
 			}
 		case token.MUL:
 			if al, ok := x.X.(*ssa.Alloc); ok {
-				if sts, local := c03LocalStores(al); local && len(sts) == 0 {
+				if sts, local := c03LocalStores(al); local && len(sts) == 0 && !c03PartlyWritten(al) {
 					return "zero"
 				}
 				return ""
@@ -577,6 +767,46 @@ func (e *c03Eng) evalD(fr *c03Frame, v ssa.Value, pe c03Path, d int) (constant.V
 				}
 			}
 		}
+		// an error (pointer) result of an in-package helper compared with nil
+		if x.Op == token.EQL || x.Op == token.NEQ {
+			var other ssa.Value
+			switch {
+			case an.IsNilConst(x.Y):
+				other = x.X
+			case an.IsNilConst(x.X):
+				other = x.Y
+			}
+			if other != nil {
+				if isNil, st := e.evalNil(fr, other, pe, 0); st == c03Known {
+					return constant.MakeBool(isNil == (x.Op == token.EQL)), c03Known
+				}
+			}
+		}
+		// a status code compared with a constant: decided when no (or every) value the helper can hand
+		// out under the assumption equals it
+		if (x.Op == token.EQL || x.Op == token.NEQ) && (s1 == c03Known) != (s2 == c03Known) {
+			k, other := l, x.Y
+			if s2 == c03Known {
+				k, other = r, x.X
+			}
+			if ks, ok := e.evalSet(fr, other); ok && len(ks) > 0 {
+				all, none := true, true
+				for _, q := range ks {
+					if q.Kind() != k.Kind() {
+						all, none = false, false
+						break
+					}
+					if constant.Compare(q, token.EQL, k) {
+						none = false
+					} else {
+						all = false
+					}
+				}
+				if all || none {
+					return constant.MakeBool(all == (x.Op == token.EQL)), c03Known
+				}
+			}
+		}
 		// non-short-circuit boolean operators decided by one side
 		if x.Op == token.AND || x.Op == token.OR {
 			for _, side := range []struct {
@@ -721,6 +951,165 @@ func (e *c03Eng) evalCall(fr *c03Frame, call *ssa.Call, idx int) (constant.Value
 	}
 	e.memo[key] = out
 	return out.k, out.st
+}
+
+// evalNil decides whether v (an error or pointer) is nil under the assumption: a nil constant, a freshly
+// made error, or the result of an in-package helper all of whose reachable returns agree.
+func (e *c03Eng) evalNil(fr *c03Frame, v ssa.Value, pe c03Path, d int) (bool, int) {
+	if d > 6 || v == nil {
+		return false, c03Opaque
+	}
+	switch x := v.(type) {
+	case *ssa.MakeInterface:
+		return false, c03Known // an interface holding a concrete value is not nil
+	case *ssa.ChangeInterface:
+		return e.evalNil(fr, x.X, pe, d+1)
+	case *ssa.ChangeType:
+		return e.evalNil(fr, x.X, pe, d+1)
+	case *ssa.Phi:
+		if pv, ok := pe[x]; ok && pv.v != nil {
+			return e.evalNil(fr, pv.v, pe, d+1)
+		}
+		if len(x.Edges) == 1 {
+			return e.evalNil(fr, x.Edges[0], pe, d+1)
+		}
+		return false, c03Free
+	}
+	rv, rfr := e.resolve(fr, v)
+	if rfr != fr {
+		pe = nil
+	}
+	if rv != v {
+		return e.evalNil(rfr, rv, pe, d+1)
+	}
+	idx := 0
+	var call *ssa.Call
+	switch x := rv.(type) {
+	case *ssa.Const:
+		return x.IsNil(), c03Known
+	case *ssa.Alloc, *ssa.MakeMap, *ssa.MakeSlice, *ssa.MakeChan, *ssa.MakeClosure, *ssa.FieldAddr, *ssa.IndexAddr:
+		return false, c03Known
+	case *ssa.Extract:
+		c, ok := x.Tuple.(*ssa.Call)
+		if !ok {
+			return false, c03Free
+		}
+		call, idx = c, x.Index
+	case *ssa.Call:
+		call = x
+	default:
+		return false, c03Free
+	}
+	cc := &call.Call
+	if cc.IsInvoke() {
+		return false, c03Free
+	}
+	if f := cc.StaticCallee(); f != nil && e.callee(cc) == nil {
+		// constructors of errors never hand out nil
+		if n := f.Name(); (n == "New" || n == "Errorf") && an.IsErrorType(f.Signature.Results().At(0).Type()) {
+			return false, c03Known
+		}
+		return false, c03Free
+	}
+	cal := e.callee(cc)
+	if cal == nil {
+		return false, c03Free
+	}
+	if !e.argsRelate(fr, cc.Args) && !e.mentions(cal, 0, map[*ssa.Function]bool{}) {
+		return false, c03Free
+	}
+	nf := e.enter(fr, call)
+	if nf == nil {
+		return false, c03Opaque
+	}
+	key := fmt.Sprintf("nil/%p/%p/%d", call, fr, idx)
+	if _, busy := e.memo[key]; busy {
+		return false, c03Opaque
+	}
+	e.memo[key] = c03Sum{nil, c03Opaque}
+	defer delete(e.memo, key)
+	w := e.walk(nf, nil, 0, nil)
+	if w.truncated || w.opaque || len(w.rets) == 0 {
+		return false, c03Opaque
+	}
+	first, out := true, false
+	for _, rt := range w.rets {
+		res := returnValues(rt.ret)
+		if idx >= len(res) {
+			return false, c03Opaque
+		}
+		isNil, st := e.evalNil(nf, res[idx], rt.pe, d+1)
+		if st != c03Known {
+			return false, st
+		}
+		if first {
+			first, out = false, isNil
+		} else if out != isNil {
+			return false, c03Free
+		}
+	}
+	return out, c03Known
+}
+
+// evalSet lists the constants result v (a result of a call of an in-package function with an integer
+// or boolean result) can take under the assumption; ok=false if some reachable return is not decided.
+func (e *c03Eng) evalSet(fr *c03Frame, v ssa.Value) ([]constant.Value, bool) {
+	v, fr = e.resolve(fr, v)
+	idx := 0
+	var call *ssa.Call
+	switch y := v.(type) {
+	case *ssa.Extract:
+		c, ok := y.Tuple.(*ssa.Call)
+		if !ok {
+			return nil, false
+		}
+		call, idx = c, y.Index
+	case *ssa.Call:
+		call = y
+	default:
+		return nil, false
+	}
+	cc := &call.Call
+	if cc.IsInvoke() {
+		return nil, false
+	}
+	cal := e.callee(cc)
+	if cal == nil || (!e.argsRelate(fr, cc.Args) && !e.mentions(cal, 0, map[*ssa.Function]bool{})) {
+		return nil, false
+	}
+	res := cal.Signature.Results()
+	if idx >= res.Len() {
+		return nil, false
+	}
+	if b, ok := res.At(idx).Type().Underlying().(*types.Basic); !ok || b.Info()&(types.IsBoolean|types.IsInteger) == 0 {
+		return nil, false
+	}
+	nf := e.enter(fr, call)
+	if nf == nil {
+		return nil, false
+	}
+	key := fmt.Sprintf("set/%p/%p/%d", call, fr, idx)
+	if _, busy := e.memo[key]; busy {
+		return nil, false
+	}
+	e.memo[key] = c03Sum{nil, c03Opaque}
+	defer delete(e.memo, key)
+	w := e.walk(nf, nil, 0, nil)
+	if w.truncated || w.opaque || len(w.rets) == 0 {
+		return nil, false
+	}
+	var out []constant.Value
+	for _, rt := range w.rets {
+		if idx >= len(rt.ret.Results) {
+			return nil, false
+		}
+		k, s := e.eval(nf, rt.ret.Results[idx], rt.pe)
+		if s != c03Known {
+			return nil, false
+		}
+		out = append(out, k)
+	}
+	return out, true
 }
 
 // argsRelate: one of the arguments is (part of) an expression the assumption assigns a value to.
@@ -1000,6 +1389,41 @@ type c03Outcome struct {
 	just ssa.Value
 	jfr  *c03Frame
 	odd  string // why the pair could not be expanded further
+	// conds: the rule is this constant only where these values equal these constants (the key under
+	// which the rule was taken out of a constant table)
+	conds []c03Cond
+}
+
+// c03Cond says that value v of activation fr equals k.
+type c03Cond struct {
+	v  ssa.Value
+	fr *c03Frame
+	k  constant.Value
+}
+
+// reachableUnder: can the outcome point execute under assumption f together with the outcome's own
+// conditions? A condition that contradicts f makes it unreachable.
+func (e *c03Eng) reachableUnder(o c03Outcome, f c03Facts) (reach, und bool) {
+	for _, cd := range o.conds {
+		t := e.term(cd.fr, cd.v)
+		for strings.HasPrefix(t, "!") {
+			t = "" // not a plain value term
+		}
+		if t != "" {
+			if kv, ok := f.byTerm[t]; ok {
+				if kv.Kind() != cd.k.Kind() || !constant.Compare(kv, token.EQL, cd.k) {
+					return false, false
+				}
+				continue
+			}
+			f.term(t, cd.k)
+		}
+		if kv, ok := f.byVal[cd.v]; ok && (kv.Kind() != cd.k.Kind() || !constant.Compare(kv, token.EQL, cd.k)) {
+			return false, false
+		}
+		f.val(cd.v, cd.k)
+	}
+	return e.under(f).reachable(o.pt)
 }
 
 func (e *c03Eng) outcomes(fr *c03Frame) []c03Outcome {
@@ -1014,16 +1438,16 @@ func (e *c03Eng) outcomes(fr *c03Frame) []c03Outcome {
 	return out
 }
 
-func (e *c03Eng) expand(pt c03Point, rule ssa.Value, rfr *c03Frame, just ssa.Value, jfr *c03Frame, out *[]c03Outcome, d int) {
+func (e *c03Eng) expand(pt c03Point, rule ssa.Value, rfr *c03Frame, just ssa.Value, jfr *c03Frame, out *[]c03Outcome, d int, conds ...c03Cond) {
 	if d > 10 {
-		*out = append(*out, c03Outcome{pt: pt, rule: rule, rfr: rfr, just: just, jfr: jfr, odd: "nesting too deep"})
+		*out = append(*out, c03Outcome{pt: pt, rule: rule, rfr: rfr, just: just, jfr: jfr, odd: "nesting too deep", conds: conds})
 		return
 	}
 	rule, rfr = e.resolve(rfr, rule)
 	just, jfr = e.resolve(jfr, just)
 	switch x := rule.(type) {
 	case *ssa.Const:
-		*out = append(*out, c03Outcome{pt: pt, rule: rule, rfr: rfr, just: just, jfr: jfr})
+		*out = append(*out, c03Outcome{pt: pt, rule: rule, rfr: rfr, just: just, jfr: jfr, conds: conds})
 		return
 	case *ssa.Phi:
 		if rfr != pt.fr {
@@ -1043,7 +1467,7 @@ func (e *c03Eng) expand(pt c03Point, rule ssa.Value, rfr *c03Frame, just ssa.Val
 				j = jp.Edges[i]
 			}
 			npt := c03Point{fr: rfr, pred: x.Block().Preds[i], succ: x.Block()}
-			e.expand(npt, ed, rfr, j, jfr, out, d+1)
+			e.expand(npt, ed, rfr, j, jfr, out, d+1, conds...)
 		}
 		return
 	case *ssa.Extract:
@@ -1064,7 +1488,7 @@ func (e *c03Eng) expand(pt c03Point, rule ssa.Value, rfr *c03Frame, just ssa.Val
 				continue
 			}
 			res := returnValues(r)
-			e.expand(c03Point{fr: nf, in: r}, res[0], nf, res[1], nf, out, d+1)
+			e.expand(c03Point{fr: nf, in: r}, res[0], nf, res[1], nf, out, d+1, conds...)
 		}
 		return
 	case *ssa.Call:
@@ -1075,11 +1499,23 @@ func (e *c03Eng) expand(pt c03Point, rule ssa.Value, rfr *c03Frame, just ssa.Val
 		}
 		for _, r := range an.Returns(nf.fn) {
 			res := returnValues(r)
-			e.expand(c03Point{fr: nf, in: r}, res[0], nf, just, jfr, out, d+1)
+			e.expand(c03Point{fr: nf, in: r}, res[0], nf, just, jfr, out, d+1, conds...)
 		}
 		return
 	}
-	*out = append(*out, c03Outcome{pt: pt, rule: rule, rfr: rfr, just: just, jfr: jfr, odd: "the rule is computed"})
+	if lk, ok := rule.(*ssa.Lookup); ok && !lk.CommaOk {
+		// taken out of a package-level table that only ever holds the constants it is initialised with:
+		// one outcome per entry, under the condition that the key is that entry's
+		if entries, zero, ok := e.constTable(lk); ok {
+			for _, en := range entries {
+				nc := append(append([]c03Cond(nil), conds...), c03Cond{lk.Index, rfr, en[0].Value})
+				*out = append(*out, c03Outcome{pt: pt, rule: en[1], rfr: rfr, just: just, jfr: jfr, conds: nc})
+			}
+			*out = append(*out, c03Outcome{pt: pt, rule: zero, rfr: rfr, just: just, jfr: jfr, conds: conds}) // a key that is not in the table
+			return
+		}
+	}
+	*out = append(*out, c03Outcome{pt: pt, rule: rule, rfr: rfr, just: just, jfr: jfr, odd: "the rule is computed", conds: conds})
 }
 
 // ---------------------------------------------------------------------------------------------
@@ -1109,7 +1545,7 @@ func (e *c03Eng) pointee(fr *c03Frame, p ssa.Value, d int) (string, bool) {
 	switch x := p.(type) {
 	case *ssa.Alloc:
 		sts, local := c03LocalStores(x)
-		if !local {
+		if !local || c03PartlyWritten(x) {
 			return "", false
 		}
 		switch len(sts) {
@@ -1179,6 +1615,9 @@ func (e *c03Eng) filter(fr *c03Frame, v ssa.Value, d int) (c03Spec, int) {
 		sp.pr, ok2 = e.pointee(fr, a[4], 0)
 		sp.pv, ok3 = e.pointee(fr, a[5], 0)
 		if !ok1 || !ok2 || !ok3 || sp.msgs == "" || sp.typ == "" || sp.round == "" {
+			if os.Getenv("C03DEBUG") != "" {
+				fmt.Fprintf(os.Stderr, "c03: filter spec unknown: %v %v %v msgs=%q typ=%q round=%q in %s\n", ok1, ok2, ok3, sp.msgs, sp.typ, sp.round, fr.fn.Name())
+			}
 			return sp, c03SpecUnknown
 		}
 		return sp, c03SpecOK
@@ -1399,3 +1838,173 @@ func (e *c03Eng) sameList(a ssa.Value, afr *c03Frame, b ssa.Value, bfr *c03Frame
 }
 
 func c03Bool(b bool) constant.Value { return constant.MakeBool(b) }
+
+// c03SameType: the two types are identical up to the identity of type parameters (every generic
+// function and method of core/qbft declares its own I, V, C; they are matched by position).
+func c03SameType(a, b types.Type) bool { return c03SameTypeD(a, b, 0) }
+
+func c03SameTypeD(a, b types.Type, d int) bool {
+	if types.Identical(a, b) {
+		return true
+	}
+	if d > 6 {
+		return false
+	}
+	a, b = types.Unalias(a), types.Unalias(b)
+	switch x := a.(type) {
+	case *types.TypeParam:
+		y, ok := b.(*types.TypeParam)
+		return ok && x.Index() == y.Index()
+	case *types.Slice:
+		y, ok := b.(*types.Slice)
+		return ok && c03SameTypeD(x.Elem(), y.Elem(), d+1)
+	case *types.Pointer:
+		y, ok := b.(*types.Pointer)
+		return ok && c03SameTypeD(x.Elem(), y.Elem(), d+1)
+	case *types.Array:
+		y, ok := b.(*types.Array)
+		return ok && x.Len() == y.Len() && c03SameTypeD(x.Elem(), y.Elem(), d+1)
+	case *types.Chan:
+		y, ok := b.(*types.Chan)
+		return ok && x.Dir() == y.Dir() && c03SameTypeD(x.Elem(), y.Elem(), d+1)
+	case *types.Map:
+		y, ok := b.(*types.Map)
+		return ok && c03SameTypeD(x.Key(), y.Key(), d+1) && c03SameTypeD(x.Elem(), y.Elem(), d+1)
+	case *types.Named:
+		y, ok := b.(*types.Named)
+		if !ok || x.Origin().Obj() != y.Origin().Obj() {
+			return false
+		}
+		xa, ya := x.TypeArgs(), y.TypeArgs()
+		if xa.Len() != ya.Len() {
+			return false
+		}
+		for i := 0; i < xa.Len(); i++ {
+			if !c03SameTypeD(xa.At(i), ya.At(i), d+1) {
+				return false
+			}
+		}
+		return true
+	}
+	return false
+}
+
+// pkgAllFuncs lists every function of the engine's package: package-level functions, methods of its
+// named types (generic ones included) and all function literals.
+func (e *c03Eng) pkgAllFuncs() []*ssa.Function {
+	seen := map[*ssa.Function]bool{}
+	var out []*ssa.Function
+	add := func(f *ssa.Function) {
+		if f == nil {
+			return
+		}
+		for _, g := range an.Closure(f) {
+			if !seen[g] {
+				seen[g] = true
+				out = append(out, g)
+			}
+		}
+	}
+	for _, m := range e.pkg.Members {
+		switch x := m.(type) {
+		case *ssa.Function:
+			add(x)
+		case *ssa.Type:
+			if named, ok := x.Type().(*types.Named); ok {
+				for i := 0; i < named.NumMethods(); i++ {
+					add(e.pkg.Prog.FuncValue(named.Method(i)))
+				}
+			}
+		}
+	}
+	return out
+}
+
+// constTable: lk reads a package-level map that is assigned exactly once — in the package initialiser,
+// a fresh map filled with constant keys and values — and is otherwise only read (lookups, len, range)
+// anywhere in the package and not exported. Returns its entries and the zero value of its element type.
+func (e *c03Eng) constTable(lk *ssa.Lookup) (entries [][2]*ssa.Const, zero *ssa.Const, ok bool) {
+	ld, isLd := an.Unwrap(lk.X).(*ssa.UnOp)
+	if !isLd || ld.Op != token.MUL {
+		return nil, nil, false
+	}
+	g, isG := ld.X.(*ssa.Global)
+	if !isG || g.Pkg != e.pkg || (g.Object() != nil && g.Object().Exported()) {
+		return nil, nil, false
+	}
+	mt, isMap := g.Type().Underlying().(*types.Pointer).Elem().Underlying().(*types.Map)
+	if !isMap {
+		return nil, nil, false
+	}
+	eb, isB := mt.Elem().Underlying().(*types.Basic)
+	if !isB || eb.Info()&types.IsInteger == 0 {
+		return nil, nil, false
+	}
+	var theStore *ssa.Store
+	for _, f := range e.pkgAllFuncs() {
+		for _, in := range an.Instrs(f, false) {
+			for _, op := range an.Operands(in) {
+				if op != ssa.Value(g) {
+					continue
+				}
+				switch x := in.(type) {
+				case *ssa.Store:
+					if x.Addr != ssa.Value(g) || theStore != nil || f.Name() != "init" || f.Parent() != nil {
+						return nil, nil, false
+					}
+					theStore = x
+				case *ssa.UnOp:
+					if x.Op != token.MUL || x.Referrers() == nil {
+						return nil, nil, false
+					}
+					for _, ref := range *x.Referrers() {
+						switch y := ref.(type) {
+						case *ssa.DebugRef, *ssa.Range:
+						case *ssa.Lookup:
+							if y.X != ssa.Value(x) {
+								return nil, nil, false
+							}
+						case *ssa.Call:
+							if b, isB := y.Call.Value.(*ssa.Builtin); !isB || b.Name() != "len" {
+								return nil, nil, false
+							}
+						default:
+							return nil, nil, false // updated, deleted from, handed on
+						}
+					}
+				default:
+					return nil, nil, false // address taken
+				}
+			}
+		}
+	}
+	if theStore == nil {
+		return nil, nil, false
+	}
+	mk, isMk := theStore.Val.(*ssa.MakeMap)
+	if !isMk || mk.Referrers() == nil {
+		return nil, nil, false
+	}
+	for _, ref := range *mk.Referrers() {
+		switch y := ref.(type) {
+		case *ssa.DebugRef:
+		case *ssa.Store:
+			if y != theStore {
+				return nil, nil, false
+			}
+		case *ssa.MapUpdate:
+			k, ok1 := y.Key.(*ssa.Const)
+			v, ok2 := y.Value.(*ssa.Const)
+			if y.Map != ssa.Value(mk) || !ok1 || !ok2 || k.Value == nil || v.Value == nil {
+				return nil, nil, false
+			}
+			entries = append(entries, [2]*ssa.Const{k, v})
+		default:
+			return nil, nil, false
+		}
+	}
+	if len(entries) == 0 {
+		return nil, nil, false
+	}
+	return entries, ssa.NewConst(constant.MakeInt64(0), mt.Elem()), true
+}
